@@ -122,23 +122,23 @@ Proof. reflexivity. Qed.
 
 Definition vals_of (r : (dheap string * ns string) * eres string) : eres string := snd r.
 
-Example ex_ns_helper : vals_of (ns_case Generated.builtin_helper_names ["X"] None None "lag") = EVal "T:lag".
+Example ex_ns_helper : vals_of (ns_case Generated.builtin_helper_names ["np"; "abs"] ["X"] None None "lag") = EVal "T:lag".
 Proof. vm_compute. reflexivity. Qed.
-Example ex_ns_variable_shadows_helper : vals_of (ns_case Generated.builtin_helper_names ["X"; "lag"] None None "lag") = EVal "V:lag".
+Example ex_ns_variable_shadows_helper : vals_of (ns_case Generated.builtin_helper_names ["np"; "abs"] ["X"; "lag"] None None "lag") = EVal "V:lag".
 Proof. vm_compute. reflexivity. Qed.
-Example ex_ns_local_shadows_variable : vals_of (ns_case Generated.builtin_helper_names ["X"; "lag"] (Some ["lag"]) None "lag") = EVal "L:lag".
+Example ex_ns_local_shadows_variable : vals_of (ns_case Generated.builtin_helper_names ["np"; "abs"] ["X"; "lag"] (Some ["lag"]) None "lag") = EVal "L:lag".
 Proof. vm_compute. reflexivity. Qed.
-Example ex_ns_undefined : vals_of (ns_case Generated.builtin_helper_names ["X"] (Some ["Y"]) None "Z") = EAttributeError "Z".
+Example ex_ns_undefined : vals_of (ns_case Generated.builtin_helper_names ["np"; "abs"] ["X"] (Some ["Y"]) None "Z") = EAttributeError "Z".
 Proof. vm_compute. reflexivity. Qed.
-Example ex_ns_builtins_disabled : vals_of (ns_case Generated.builtin_helper_names ["X"] None (Some []) "lag") = EAttributeError "lag".
+Example ex_ns_builtins_disabled : vals_of (ns_case Generated.builtin_helper_names ["np"; "abs"] ["X"] None (Some []) "lag") = EAttributeError "lag".
 Proof. vm_compute. reflexivity. Qed.
 
 (* the package table (dict 0) is never written; a dict passed as `builtins=` (dict 1) is updated in place *)
 Example ex_ns_heap :
-  fst (ns_case ["lag"; "log"] ["X"] (Some ["k"]) None "X")
+  fst (ns_case ["lag"; "log"] ["np"; "abs"] ["X"] (Some ["k"]) None "X")
     = ([[("lag", "T:lag"); ("log", "T:log")];
         [("lag", "T:lag"); ("log", "T:log"); ("X", "V:X"); ("k", "L:k")]], [("X", "V:X")]) /\
-  fst (ns_case ["lag"; "log"] ["X"] (Some ["k"]) (Some ["lag"; "mine"]) "X")
+  fst (ns_case ["lag"; "log"] ["np"; "abs"] ["X"] (Some ["k"]) (Some ["lag"; "mine"]) "X")
     = ([[("lag", "T:lag"); ("log", "T:log")];
         [("lag", "B:lag"); ("mine", "B:mine"); ("X", "V:X"); ("k", "L:k")]], [("X", "V:X")]).
 Proof. split; vm_compute; reflexivity. Qed.
@@ -156,3 +156,20 @@ Example ex_eval_premises :
   (0 < List.length dh)%nat /\ Some 1%nat <> Some 0%nat /\ (forall l, Some 1%nat = Some l -> (l < List.length dh)%nat) /\
   eval_text (fun _ => false) (fun _ => Raise KeyError) "X" = Ret "X".
 Proof. cbv zeta. repeat split; try discriminate; try (cbn; lia). intros l H; inversion H; subst; cbn; lia. Qed.
+
+(* ---- kept finding (module-global-visible): eval() passes globals=None, so a name that is neither a local, a variable nor a
+        helper but IS a global of fsic/core/containers.py (or a Python builtin) evaluates to that object instead of raising
+        AttributeError naming it ---- *)
+Theorem undefined_name_leak_refuted :
+  exists (tbl outer vars : list string) (name : string),
+    existsb (String.eqb name) tbl = false /\ existsb (String.eqb name) vars = false /\
+    snd (ns_case tbl outer vars None None name) <> EAttributeError name /\
+    snd (ns_case tbl outer vars None None name) = EVal ("G:" ++ name).
+Proof.
+  exists Generated.builtin_helper_names, ["np"; "copy"; "abs"], ["X"], "np".
+  repeat split; try (vm_compute; reflexivity). vm_compute. discriminate.
+Qed.
+
+(* a name that is nowhere — not even in the module globals / Python builtins — is reported as AttributeError naming it *)
+Example ex_ns_undefined_with_outer : vals_of (ns_case Generated.builtin_helper_names ["np"; "abs"] ["X"] None None "nope") = EAttributeError "nope".
+Proof. vm_compute. reflexivity. Qed.
